@@ -47,6 +47,14 @@ CHECKS = {
             "histories incl. operations issued from listeners and predicates; transition cover replayed on the real EventQueue; TraceDQ.tla is the "
             "exactly-once / FIFO / put-back-in-front / results oracle for each recorded execution.",
             "TLA+ model checking (TLC) + transition-cover replay of re-entrant queue programs + TLC trace validation"),
+    "C10": (MC, "7/C10", "seq",
+            "Two reference/implementation models decide it: ObjGen.tla (2-3 dispatcher/queue objects; copy = same listeners and filters, no "
+            "pending events, fresh counters; move = transfer; swap = exchange; with the defects 'uninit' and 'share' TLC violates FreshQueue / "
+            "Independent) and CLImpl.tla with two CallbackList objects (generation counters travel with the nodes). Their transition covers run on "
+            "EventQueue, EventDispatcher, HeterEventQueue, HeterEventDispatcher and CallbackList objects constructed into storage pre-filled with "
+            "0xAB/0xFF/0x00/0xA5 in C++11-20 builds; TraceObj.tla / TraceCL.tla judge every execution (independence probe, emptyQueue/waitFor of "
+            "fresh objects, moved-from source loose).",
+            "TLA+ model checking (TLC) + transition-cover replay over object kinds / storage patterns / language levels + TLC trace validation"),
     "C12": (MC, "7/C12", "seq",
             "DQImpl.tla with MixinFilter (filters as a snapshot list, scripted verdicts and argument rewrites, add/remove from inside filters and "
             "listeners) model-checked and covered; executions of the real dispatcher/queue with MixinFilter in by-value / const& / & prototypes are "
